@@ -5,6 +5,7 @@ import (
 	"fmt"
 	"strings"
 	"sync/atomic"
+	"time"
 
 	"github.com/streamingfast/bstream"
 
@@ -73,7 +74,7 @@ func Eval(c Case) (*core.Fail, bool) {
 			chain.Head = final
 		}
 	}
-	cfg := sysrun.Config{Modules: p.Modules, Output: p.Output, Prod: c.Prod, Seg: c.Seg, Start: int64(c.Start), Stop: c.Stop, Final: final, Dir: dir, Source: chain}
+	cfg := sysrun.Config{Modules: p.Modules, Output: p.Output, Prod: c.Prod, Seg: c.Seg, Start: int64(c.Start), Stop: c.Stop, Final: final, Dir: dir, Source: chain, Timeout: 10 * time.Second}
 	r := sysrun.Run(cfg)
 	desc := func() string { return c.String() }
 	lowest := c.MInit
@@ -90,7 +91,15 @@ func Eval(c Case) (*core.Fail, bool) {
 		if c.Prod && c.Final < 0 && c.Stop == 0 {
 			return nil, false
 		}
-		return core.Failf("request-failed", "%s: %v", desc(), r.Err), false
+		key := "request-failed"
+		if strings.Contains(r.Err.Error(), "context deadline exceeded") || strings.Contains(r.Err.Error(), "HANG") {
+			key = "hang"
+			// classify: production request that back-fills outputs while no store starts below the hand-off
+			if r.Session != nil && c.Prod && c.Prog == "storemap" && c.SInit >= r.Session.LinearHandoffBlock && c.Start < r.Session.LinearHandoffBlock {
+				key = "hang:outputs-back-filled-while-every-store-starts-at-or-above-the-hand-off"
+			}
+		}
+		return core.Failf(key, "%s: %v", desc(), r.Err), false
 	}
 	atomic.AddInt64(&jobs, int64(len(r.Jobs)))
 	if r.Session == nil {
